@@ -23,6 +23,9 @@ var ungeneratable = map[string]sgen.M{
 	"bad-pointer":        {"$ref": "#/properties/x"},
 	"empty-enum":         {"enum": []any{}},
 	"non-primitive-enum": {"enum": []any{sgen.M{"a": 1}}},
+	// a typed integer enum must consist of numbers
+	"integer-enum-object-member": {"type": "integer", "enum": []any{1, 2, sgen.M{"k": 3}}},
+	"integer-enum-string-member": {"type": "integer", "enum": []any{1, "x"}},
 }
 
 type injection struct {
@@ -91,7 +94,7 @@ func goParses(src string) bool {
 
 func init() {
 	register("C18", func(c *engine.Ctx) {
-		c.Rule = "the CLI binary built from /repo, run in an empty sandbox directory: (1) valid schemas with one ungeneratable element (unknown type, missing definition, missing file, bad pointer, empty enum, non-primitive enum) injected at every kind of position (property, nested, array item, definition, unreferenced definition, allOf/anyOf branch, branch given by $ref, additionalProperties, and — for enum faults — next to a valid twin that owns the same Go type name and is generated first: definition/definition, property/sibling, property/definition) x output to stdout or to a file; (2) malformed file contents (truncated, wrongly typed keywords, null in every position, YAML junk, empty, binary); (3) missing files, directories, malformed and unknown flags, no arguments, no package. Judged: exit 0 with complete parsable output, or non-zero exit with a diagnostic on stderr, nothing on stdout, no file created or modified; an ungeneratable element always fails the run; never a panic trace or a hang. In-process: mutated schemas through DoFile/Sources under recover() with a timeout. Distinct = distinct (case kind, position, output mode, outcome)."
+		c.Rule = "the CLI binary built from /repo, run in an empty sandbox directory: (1) valid schemas with one ungeneratable element (unknown type, missing definition, missing file, bad pointer, empty enum, non-primitive enum, typed integer enum with an object / a string member) injected at every kind of position (property, nested, array item, definition, unreferenced definition, allOf/anyOf branch, branch given by $ref, additionalProperties, and — for enum faults — next to a valid twin that owns the same Go type name and is generated first: definition/definition, property/sibling, property/definition) x output to stdout or to a file x option sets (--only-models, --min-sized-ints, -e, --struct-name-from-title, --tags, combined; one in rotation per case, all in the thorough tier); (2) malformed file contents (truncated, wrongly typed keywords, null in every position, YAML junk, empty, binary); (3) missing files, directories, malformed and unknown flags, no arguments, no package. Judged: exit 0 with complete parsable output, or non-zero exit with a diagnostic on stderr, nothing on stdout, no file created or modified; an ungeneratable element always fails the run; never a panic trace or a hang. In-process: mutated schemas through DoFile/Sources under recover() with a timeout. Distinct = distinct (case kind, position, output mode, outcome)."
 		c.Proofs([]string{"GJS.Props.C18"}, []string{
 			"GJS.Props.C18.cli_generation_error_writes_nothing", "GJS.Props.C18.cli_flag_error_writes_nothing", "GJS.Props.C18.cli_success_writes_all",
 			"GJS.Props.C18.flag_without_equals_rejected", "GJS.Props.C18.flag_with_equals_accepted", "GJS.Props.C18.unknown_type_fails",
@@ -121,6 +124,16 @@ func init() {
 					cliCase{kind, inj.name, map[string]string{"s.json": content}, []string{"-p", "x", "s.json"}, true, ""},
 					cliCase{kind, inj.name, map[string]string{"s.json": content}, []string{"-p", "x", "-o", "out/gen.go", "s.json"}, true, ""},
 				)
+				// an ungeneratable element is ungeneratable under every option set: one option per case in rotation
+				// (all of them in the thorough tier)
+				optSets := [][]string{{"--only-models"}, {"--min-sized-ints"}, {"-e"}, {"--struct-name-from-title"}, {"--only-models", "--min-sized-ints", "-e"}, {"--tags", "json"}}
+				for oi, os := range optSets {
+					if !c.Thorough() && oi != len(cases)%len(optSets) {
+						continue
+					}
+					args := append(append([]string{"-p", "x", "-o", "out/gen.go"}, os...), "s.json")
+					cases = append(cases, cliCase{kind, inj.name + " " + strings.Join(os, " "), map[string]string{"s.json": content}, args, true, ""})
+				}
 				if c.Thorough() {
 					cases = append(cases, cliCase{kind, inj.name, map[string]string{"good.json": `{"$id":"urn:good","type":"object","properties":{"a":{"type":"string"}}}`, "s.json": content},
 						[]string{"-p", "x", "--schema-output", "urn:good=out/good.go", "--schema-output", "urn:c18=out/bad.go", "good.json", "s.json"}, true, ""})
